@@ -337,9 +337,21 @@ DoneChoosingBodySource:
 		urlPath += "/"
 	}
 
-	req, err := http.NewRequestWithContext(context.Background(), r.method, urlPath, body)
+	// An empty value substituted into the first path segment yields a path that starts with
+	// "//". Parsed as a URL reference, that would read the next segment as an authority (and
+	// lose it), so such a path is parsed as a request target (origin-form) instead.
+	target := urlPath
+	if strings.HasPrefix(urlPath, "//") {
+		target = ""
+	}
+	req, err := http.NewRequestWithContext(context.Background(), r.method, target, body)
 	if err != nil {
 		return nil, err
+	}
+	if target != urlPath {
+		if req.URL, err = url.ParseRequestURI(urlPath); err != nil {
+			return nil, err
+		}
 	}
 
 	originalParams := r.GetQueryParams()
